@@ -8,7 +8,7 @@ from ..engine import rule
 from ..cxx_ir import CALL_KINDS, CTOR_KINDS
 from ..cfg import const_eval
 from ..bridge import binding_table
-from .common import (short, inst, live_funcs, calls_in, callee_func, member_path, local_inits,
+from .common import (effective_stmts, short, inst, live_funcs, calls_in, callee_func, member_path, local_inits,
                      enclosing_map, ancestors, strip_casts)
 
 NODE_REC = 'optree::PyTreeSpec::Node'
@@ -147,10 +147,9 @@ def side_token(prog, e):
 def returns_false(stmt):
     if stmt is None:
         return False
-    s = stmt
-    while s.kind == 'CompoundStmt' and len(s.kids) == 1:
-        s = s.kids[0]
-    if s.kind == 'ReturnStmt' and s.kids and const_eval(s.kids[0]) is False:
+    # the branch does nothing but return false (no-op statements do not count)
+    es = effective_stmts(stmt)
+    if len(es) == 1 and es[0].kind == 'ReturnStmt' and es[0].kids and const_eval(es[0].kids[0]) is False:
         return True
     return False
 
